@@ -24,7 +24,7 @@ Idx(n) == {NoneI} \cup (-(n + 2)..(n + 2))
 Idx1(n) == {NoneI} \cup (-(n + 1)..(n + 1))
 Steps(n) == {NoneI} \cup (-(n + 1)..(n + 1))
 Opnd(n) == BitsUpTo(n)
-VInt(i) == IF i < 0 THEN <<2, 1>> \o (IF -i = 1 THEN <<1>> ELSE IF -i < 4 THEN UBits(-i, 2) ELSE IF -i < 8 THEN UBits(-i, 3) ELSE UBits(-i, 4))
+SmallInt(i) == IF i < 0 THEN <<2, 1>> \o (IF -i = 1 THEN <<1>> ELSE IF -i < 4 THEN UBits(-i, 2) ELSE IF -i < 8 THEN UBits(-i, 3) ELSE UBits(-i, 4))
            ELSE IF i = 0 THEN <<2, 0>>
            ELSE <<2, 0>> \o (IF i = 1 THEN <<1>> ELSE IF i < 4 THEN UBits(i, 2) ELSE IF i < 8 THEN UBits(i, 3) ELSE UBits(i, 4))
 
@@ -59,13 +59,13 @@ DelCalls(v, LL, LLX) ==
             a \in Idx(Len(v)), b \in Idx(Len(v)), c \in Steps(Len(v))}
 
 SetItemCalls(v, LL, LLX) ==
-    {Call("setitem", <<i>>, <<>>, <<VInt(k)>>, <<>>) : i \in (-(Len(v) + 2)..(Len(v) + 2)), k \in -2..2}
+    {Call("setitem", <<i>>, <<>>, <<SmallInt(k)>>, <<>>) : i \in (-(Len(v) + 2)..(Len(v) + 2)), k \in -2..2}
     \cup {Call("setitem", <<i>>, <<>>, <<>>, <<Lit(w)>>) : i \in (-(Len(v) + 2)..(Len(v) + 2)), w \in Opnd(LLX)}
 
 SetSliceCalls(v, LL, LLX) ==
     {Call("setslice", <<a, b, c>>, <<>>, <<>>, <<Lit(w)>>) :
             a \in Idx1(Len(v)), b \in Idx1(Len(v)), c \in Steps(Len(v)), w \in Opnd(LLX)}
-    \cup {Call("setslice", <<a, b, c>>, <<>>, <<VInt(k)>>, <<>>) :
+    \cup {Call("setslice", <<a, b, c>>, <<>>, <<SmallInt(k)>>, <<>>) :
             a \in Idx1(Len(v)), b \in Idx1(Len(v)), c \in Steps(Len(v)), k \in {-5, -4, -3, -2, -1, 0, 1, 2, 3, 4, 7, 8}}
 
 RangeCalls(v, LL, LLX) ==
